@@ -96,6 +96,8 @@ package kfake
 //@   nopanic
 //@   requires c != nil && pd != nil && fsys != nil && c.cfg.logger != nil
 //@   site call Truncate#0 assert [segment-truncated-at-the-first-bad-batch] arg0 == int64(pos) && pos < len(raw)
+//@   site call Truncate#1 assert [index-cut-to-the-batches-kept] arg0 == int64(batchIdx * indexEntrySize)
+//@   site return#1 assert [orphaned-index-entries-are-cut] int64(len(idxRaw)) <= int64(batchIdx * indexEntrySize) || reached($OpenFile1_0)
 //@   loop 1 invariant 0 <= pos && pos <= len(raw) && 0 <= batchIdx && batchIdx <= pos
 
 // The append logs' representation invariant: the file is a chain of intact frames and nothing else. writeEntry
